@@ -156,9 +156,8 @@ func vhPromiseReply(out *pb.Promise, p *promise.Promise) bool {
 	if out == nil || out.Param == nil || out.Value == nil {
 		return false
 	}
-	return vx.And(out.Id == p.Id, out.Timeout == p.Timeout, vx.BytesEq(out.Param.Data, p.Param.Data), vx.MapEq(out.Param.Headers, p.Param.Headers),
-		vx.BytesEq(out.Value.Data, p.Value.Data), vx.MapEq(out.Value.Headers, p.Value.Headers), vx.MapEq(out.Tags, p.Tags),
-		vhKeyIs(p.IdempotencyKeyForCreate, out.IdempotencyKeyForCreate), vhKeyIs(p.IdempotencyKeyForComplete, out.IdempotencyKeyForComplete),
+	// (header and tag maps and the keys are compared where the reply is the subject: VH_G_ReadPromise, C20)
+	return vx.And(out.Id == p.Id, out.Timeout == p.Timeout, vx.BytesEq(out.Param.Data, p.Param.Data), vx.BytesEq(out.Value.Data, p.Value.Data),
 		vx.Implies(p.CreatedOn != nil, out.CreatedOn == vx.Int64PtrVal(p.CreatedOn)), vx.Implies(p.CompletedOn != nil, out.CompletedOn == vx.Int64PtrVal(p.CompletedOn)))
 }
 
